@@ -1,0 +1,58 @@
+//go:build verif
+
+// Contracts for package timer, read by the verifier in /verif (govc).  Comments only.
+//
+// Ghost model (assumed, A9): clock() is the last reading of the machine clock and never goes back;
+// a *time.Timer made by time.NewTimer(x) at clock w has deadline(tt) = w + x and the runtime delivers
+// on tt.C no earlier than that deadline; chanlen/chanval/chancap describe a buffered channel.
+
+package timer
+
+//@ singleton Timer
+//@ runtags [C18]
+
+// D = s + d is the instant before which nothing may be delivered through C().
+//@ pred due() = self.s + self.d
+//@ pred inv() = self.ch != nil && chancap(self.ch) == 1 && 0 <= chanlen(self.ch) && chanlen(self.ch) <= 1
+//@      && self.s <= clock()
+//@      && implies(self.tt != nil, deadline(self.tt) >= due() || clock() >= due())
+//@      && implies(self.tt == nil && chanlen(self.ch) == 1, chanval(self.ch) == self.s && clock() >= due())
+
+//@ func New
+//@   ensures result != nil
+
+//@ func (*Timer).C
+//@   requires inv()
+//@   ensures [C18] @channel result == ite(t.tt == nil, t.ch, t.tt.C)
+//@   modifies nothing
+//@ func (*Timer).Height
+//@   ensures [C18] @latestEpoch result == t.height
+//@   modifies nothing
+//@ func (*Timer).View
+//@   ensures [C18] @latestEpoch result == t.view
+//@   modifies nothing
+
+//@ func (*Timer).Reset
+//@   requires inv()
+//@   ensures [C18] @inv inv()
+//@   ensures [C18] @latestEpoch t.height == height && t.view == view
+//@   ensures [C18] @resetInstant t.s <= clock() && t.d == d && t.s >= old(clock())
+//@   ensures [C18] @zeroFiresNow implies(d == 0, t.tt == nil && chanlen(t.ch) == 1 && chanval(t.ch) == t.s)
+//@   ensures [C18] @neverEarly implies(d != 0, t.tt != nil && t.tt != old(t.tt) && deadline(t.tt) >= t.s + d)
+//@   modifies height, view, s, d, tt, $clock, $chan.len, $chan.val, $timer.deadline
+//@ func (*Timer).stop
+//@   ensures t.tt == nil
+//@   modifies tt
+//@ func drain
+//@   requires ch != nil && 0 <= chanlen(ch) && chanlen(ch) <= 1
+//@   ensures chanlen(ch) == 0
+//@   modifies $chan.len
+
+//@ func (*Timer).Extend
+//@   requires inv()
+// assumption about callers: accumulated durations stay far from the int64 range
+//@   requires t.d + d <= 4611686018427387904 && t.d + d >= -4611686018427387904
+//@   ensures [C18] @inv inv()
+//@   ensures [C18] @accumulates t.d == old(t.d) + d && unchanged(t.s, t.height, t.view)
+//@   ensures [C18] @neverEarly implies(t.tt != old(t.tt), t.tt != nil && deadline(t.tt) >= t.s + t.d)
+//@   modifies d, tt, $clock, $timer.deadline
